@@ -21,12 +21,13 @@ pub fn info() -> PropInfo {
 
 pub fn strategy() -> BoxedStrategy<Case> {
     (
-        issue_spec_strategy(ClaimCfg::SHORT_F64, HONEST_PATHS, prop_oneof![3 => Just(HolderKey::None), 1 => Just(HolderKey::Ec)].boxed()),
+        issue_spec_strategy(ClaimCfg::SHORT_F64, HONEST_PATHS, prop_oneof![2 => Just(HolderKey::None), 1 => Just(HolderKey::Ec), 1 => Just(HolderKey::Ed)].boxed()),
         choices_strategy(),
         proptest::collection::vec(choices_strategy(), 0..4),
         prop::option::weighted(0.4, (choices_strategy(), proptest::collection::vec(choices_strategy(), 1..3))),
+        prop::option::weighted(0.5, (aud_nonce_strategy(), aud_nonce_strategy())),
     )
-        .prop_map(|(issue, ch, steps, alt)| {
+        .prop_map(|(issue, ch, steps, alt, kb)| {
             let first = selection_for(&issue, &ch, SelOpts { allow_null: true });
             let mut chain = vec![first];
             for s in steps {
@@ -44,7 +45,8 @@ pub fn strategy() -> BoxedStrategy<Case> {
                     a.into_iter().map(Value::Object).collect()
                 }
             };
-            C15Case { issue, chain: chain.into_iter().map(Value::Object).collect(), alt_chain }
+            let final_kb = if issue.holder.is_some() { kb.map(|(aud, nonce)| sdjwt_model::sut::KbArgs { default_alg: false, aud, nonce, key: issue.holder }) } else { None };
+            C15Case { issue, chain: chain.into_iter().map(Value::Object).collect(), alt_chain, final_kb }
         })
         .boxed()
 }
